@@ -60,9 +60,9 @@ impl Scenario for Tiling {
         }
         e
     }
-    fn concretize(&self, w: &World, mon: &Mon, sym: &str) -> Ev {
+    fn concretize(&self, w: &World, mon: &Mon, sym: &str) -> Vec<Ev> {
         let r = if sym == "D" { *mon.answered.last().unwrap() } else { mon.outstanding[sym[1..].parse::<usize>().unwrap()] };
-        Ev::Feed(0, refwire::encode(&Msg::Piece(r.0, r.1, block_bytes(&w.t, &r))))
+        vec![Ev::Feed(0, refwire::encode(&Msg::Piece(r.0, r.1, block_bytes(&w.t, &r))))]
     }
     fn check(&self, w: &World, mon: &mut Mon, last: Option<&str>) -> Option<(&'static str, String)> {
         if let Some(d) = &w.dead {
